@@ -26,10 +26,6 @@ theorem arrElems_append_ok (o : Opts) (w : Bool) : ∀ (a b : List (List Char)) 
     | throw e => rw [hst] at h; cases h
     | oob x => rw [hst] at h; cases h
 
-omit [DecidableEq α] in
-theorem valsI_append (o : Opts) (a b : List (List Char)) : valsI E o (a ++ b) = valsI E o a ++ valsI E o b := by
-  simp [valsI, List.filterMap_append]
-
 theorem Fits.left {o : Opts} {n : Nat} {done a b : List α} (h : Fits o n done (a ++ b)) : Fits o n done a := by
   intro j hj
   have := h j (by simp; omega)
@@ -51,10 +47,11 @@ theorem DupFreeI.left {o : Opts} {a b : List α} (h : DupFreeI o (a ++ b)) : Dup
 theorem arrRunP_overflow (hl : LawfulLe E.le) (o : Opts) (init : List α) :
     ∀ (uses : List (List Char)) (s : ArrState α) (done : List α) (pre post : List (List Char)) (t : List Char),
       ArrInv o init s done → allTokens o.sep uses = pre ++ t :: post →
-      (∀ e ∈ pre, AcceptsI E o e) → DupFreeI o (done ++ valsI E o pre) →
-      Fits o init.length done (valsI E o pre) →
-      (keepA o (done ++ valsI E o pre)).length = init.length →
-      ∃ s', arrRunP E o false s uses = (s', some (.exc .runtime_error)) ∧ ArrInv o init s' (done ++ valsI E o pre)
+      AccI E o done pre → DupFreeI o (done ++ valsI E o done pre) →
+      Fits o init.length done (valsI E o done pre) →
+      (keepA o (done ++ valsI E o done pre)).length = init.length →
+      ∃ s', arrRunP E o false s uses = (s', some (.exc .runtime_error)) ∧
+        ArrInv o init s' (done ++ valsI E o done pre)
   | [], _, _, pre, post, t, _, htok, _, _, _, _ => by
     exfalso
     have : ([] : List (List Char)) = pre ++ t :: post := by simpa [allTokens] using htok
@@ -74,12 +71,12 @@ theorem arrRunP_overflow (hl : LawfulLe E.le) (o : Opts) (init : List α) :
     · -- the whole use lies before the refused element
       subst hpre
       rw [valsI_append] at hdf hfit hfull
-      have hdf1 : DupFreeI o (done ++ valsI E o (tokens o.sep u)) := by
+      rw [accI_append] at hacc
+      have hdf1 : DupFreeI o (done ++ valsI E o done (tokens o.sep u)) := by
         rw [← List.append_assoc] at hdf; exact hdf.left
-      obtain ⟨s1, hs1, hi1, _⟩ := arrAssignP_inv E hl o init s u done hi
-        (fun e he => hacc e (List.mem_append_left _ he)) hdf1 hfit.left
-      obtain ⟨s', hs', hi'⟩ := arrRunP_overflow hl o init us s1 (done ++ valsI E o (tokens o.sep u)) a' post t hi1
-        hrest (fun e he => hacc e (List.mem_append_right _ he)) (by rw [List.append_assoc]; exact hdf) hfit.right
+      obtain ⟨s1, hs1, hi1, _⟩ := arrAssignP_inv E hl o init s u done hi hacc.1 hdf1 hfit.left
+      obtain ⟨s', hs', hi'⟩ := arrRunP_overflow hl o init us s1 (done ++ valsI E o done (tokens o.sep u)) a' post t hi1
+        hrest hacc.2 (by rw [List.append_assoc]; exact hdf) hfit.right
         (by rw [List.append_assoc]; exact hfull)
       refine ⟨s', ?_, ?_⟩
       · rw [arrRunP, hs1]; exact hs'
@@ -176,27 +173,25 @@ theorem fits_full_eq (o : Opts) (n : Nat) (a : List α) (hf : Fits o n [] a) (hg
     have h2 := keepA_snoc_length_le o a' z
     omega
 
-omit [DecidableEq α] in
-/-- accepted tokens all yield a value: the values of a prefix of the tokens are a prefix of the values -/
-theorem valsI_split (o : Opts) : ∀ (ts : List (List Char)), (∀ e ∈ ts, AcceptsI E o e) → ∀ (a : List α) (x : α) (b : List α),
-    valsI E o ts = a ++ x :: b → ∃ pre t post, ts = pre ++ t :: post ∧ valsI E o pre = a
-  | [], _, a, x, b, h => by
+/-- acceptable tokens all yield a value: the values of a prefix of the tokens are a prefix of the values (and the
+    prefix is acceptable, with the same values before it) -/
+theorem valsI_split (o : Opts) : ∀ (ts : List (List Char)) (done : List α), AccI E o done ts →
+    ∀ (a : List α) (x : α) (b : List α), valsI E o done ts = a ++ x :: b →
+      ∃ pre t post, ts = pre ++ t :: post ∧ valsI E o done pre = a ∧ AccI E o done pre
+  | [], _, _, a, x, b, h => by
     exfalso
-    have : ([] : List α) = a ++ x :: b := by simpa [valsI] using h
+    have : ([] : List α) = a ++ x :: b := by simpa using h
     cases a <;> simp at this
-  | t :: ts, hacc, a, x, b, h => by
-    obtain ⟨_, hconv⟩ := hacc t List.mem_cons_self
-    obtain ⟨v, hv⟩ := Option.isSome_iff_exists.mp hconv
-    have hvals : valsI E o (t :: ts) = v :: valsI E o ts := by simp [valsI, hv]
-    rw [hvals] at h
+  | t :: ts, done, hacc, a, x, b, h => by
+    obtain ⟨hchk, v, hv, hrest⟩ := (accI_cons_iff E o done t ts).mp hacc
+    rw [valsI_cons_some E o done t ts v hv] at h
     cases a with
-    | nil => exact ⟨[], t, ts, rfl, by simp [valsI]⟩
+    | nil => exact ⟨[], t, ts, rfl, rfl, trivial⟩
     | cons y a' =>
       simp only [List.cons_append, List.cons.injEq] at h
-      obtain ⟨pre, t', post, hts, hpre⟩ := valsI_split o ts (fun e he => hacc e (List.mem_cons_of_mem _ he)) a' x b h.2
-      refine ⟨t :: pre, t', post, by rw [hts]; rfl, ?_⟩
-      have : valsI E o (t :: pre) = v :: valsI E o pre := by simp [valsI, hv]
-      rw [this, hpre, h.1]
+      obtain ⟨pre, t', post, hts, hpre, haccp⟩ := valsI_split o ts (done ++ [v]) hrest a' x b h.2
+      refine ⟨t :: pre, t', post, by rw [hts]; rfl, ?_, (accI_cons_iff E o done t pre).mpr ⟨hchk, v, hv, haccp⟩⟩
+      rw [valsI_cons_some E o done t pre v hv, hpre, h.1]
 
 end arr
 
